@@ -299,6 +299,13 @@ class LedgerSim:
         except Unminable:
             self.res.bump('unminable')
             return
+        except Exception as e:
+            # the node's own block assembly raised on a valid chain with valid pending transactions
+            self.res.bump('assembly_raised')
+            if self.prop == 'C05':
+                self.res.violate('C05', 'C05/assembly-raised', 'block assembly on a valid chain raised %s: %s' % (type(e).__name__, e))
+            self.dead = True
+            return
         # C05/C12 clause on the assembled block: reward == subsidy + fees to the miner's key
         if block.header.summary.height % rules.RETARGET_PERIOD == 0:
             self.res.bump('probe:retarget_boundary_crossed')
@@ -342,7 +349,7 @@ class LedgerSim:
         except Unminable:
             self.res.bump('unminable')
             return
-        except (ValueError, OverflowError):
+        except (ValueError, OverflowError, KeyError, IndexError, TypeError):
             made = None   # the forged value cannot even be constructed / encoded: nothing a peer could send
         if made is None:
             self.res.bump('forgery_degenerate:' + kind)
